@@ -37,7 +37,7 @@ META = {
             "and every fault position (unrepresentable name/key/value, failing k-th write, cancellation after the k-th write, "
             "marshal error), incl. liveness under fairness; every enumerated scenario is constructed on a real store and real "
             "exporter and its post-state (TryLock, blocked EmitLabelSets goroutines, delivered label sets, error, follow-up "
-            "GetDatum+export) is compared with the model's.",
+            "GetDatum+export) is compared with the model's. The liveness side (VMProgress, ExportsComplete) is also exercised on the real code: every exporter runs interleaved with concurrent metric updates and each export / update must complete within a 10 s deadline (confirmed twice).",
     "note": "Faults are single (one fault per attempt); the consumer of Collect always drains; Store.Range order is matched "
             "existentially; a stall itself (liveness) is shown on the model, on the code its cause (failed TryLock / blocked goroutine).",
     "technique": "TLA+ spec + TLC exhaustive fault enumeration, scenarios replayed on the real exporters (direction A)",
@@ -240,7 +240,27 @@ def _dedup(cases):
     return tbl
 
 
+def stress(ctx):
+    """Liveness side of ExportLocks.tla on the real code: exports interleaved with line processing (GetDatum needs the
+    metric's write lock; a waiting writer blocks new readers).  Every export and every update must complete."""
+    sb = vlib.build(ctx, "c12stress")
+    rounds = 1500 if ctx.thorough else 150
+    for k in range(3 if ctx.thorough else 1):
+        rec = [r for r in vlib.run_harness(ctx, sb, args=["-rounds", str(rounds)], timeout=900, env={"VERIF_SEED": str(ctx.seed * 7 + k)}) if r.get("stress")][0]
+        ctx.cov["concurrent_exports"] = ctx.cov.get("concurrent_exports", 0) + rec["exports"]
+        ctx.cov["concurrent_updates"] = ctx.cov.get("concurrent_updates", 0) + rec["updates"]
+        if rec.get("stalls"):
+            again = [r for r in vlib.run_harness(ctx, sb, args=["-rounds", str(rounds)], timeout=900, env={"VERIF_SEED": str(ctx.seed * 7 + k)}) if r.get("stress")][0]
+            if again.get("stalls"):
+                st = again["stalls"][0]
+                ctx.violation({"stage": "stress", "stall": {k2: v for k2, v in st.items() if k2 != "goroutines"}, "goroutines": st.get("goroutines", "")[:8000],
+                               "rounds": rounds, "seed": ctx.seed * 7 + k},
+                              "an %s interleaved with metric updates did not complete within 10 s (twice): %s" % (st["kind"], st["what"]))
+                return
+
+
 def run(ctx):
+    stress(ctx)
     binary = vlib.build(ctx, "c12")
     open_devs = [d for d in vlib.open_devs(ctx.prop) if d in DEVS]
     unknown = [d for d in vlib.open_devs(ctx.prop) if d not in DEVS]
